@@ -150,7 +150,7 @@ def native_replay(kind, vt, d):
     return replay
 
 
-def _native_replay_uncached(kind, vt, d):
+def _native_replay_uncached(kind, vt, d, seeds=range(8)):
     def replay(env):
         import warnings
         import numpy as np
@@ -159,7 +159,7 @@ def _native_replay_uncached(kind, vt, d):
         from copulas.multivariate import VineCopula
         from copulas.bivariate import Bivariate
         bad = []
-        for seed in range(8):
+        for seed in seeds:
             rs = np.random.RandomState(seed)
             A = rs.normal(size=(d, d))
             X = pd.DataFrame(rs.multivariate_normal(np.zeros(d), A @ A.T + 0.3 * np.eye(d), 80), columns=vine.LABELS[:d])
@@ -279,6 +279,26 @@ def build(chk):
             if k == 0 and not chk.undecided:
                 chk.engine_error('C17.%s.d%d: no returning path' % (vt, d))
     build_sampling(chk)
+    # ---- larger vines: BOUNDED native stand-in (never counted as proved) -------------------------------------------------
+    from pyvc import report as report_mod
+    bdims = (5,) if chk.tier == 'quick' else (5, 6)
+    bseeds = range(2) if chk.tier == 'quick' else range(5)
+    evals = 0
+    for d in bdims:
+        for vt in ('center', 'direct', 'regular'):
+            try:
+                with report_mod.time_limit(600):
+                    res_ = _native_replay_uncached('sample', vt, d, seeds=bseeds)({})
+            except report_mod.NativeTimeout:
+                res_ = {'confirmed': True, 'detail': 'native %s vine, d=%d: no result within 600 s' % (vt, d)}
+            evals += len(bseeds)
+            if res_.get('confirmed'):
+                chk.bounded_violation('C17.vine.dataflow.bounded', {'vine_type': vt, 'd': d, 'seeds': list(bseeds)}, res_['detail'])
+    chk.bounded.append({'name': 'C17.vine.dataflow.bounded',
+                        'clause': 'likelihood = vine density, independent of np.empty contents, U inside (0,1), sample schema, d = %s'
+                                  % (bdims,),
+                        'bound': 'real VineCopula on %d random tables per (d, type), 80 rows, full depth' % len(bseeds),
+                        'evaluations': evals, 'distinct_nontrivial': evals, 'rule': 'one case = (d, type, table)'})
     from . import C16
     C16.build_helpers(chk, prefix='C17', parts=('edge_likelihood',))
     chk.assumptions += ['d = %s, full depth (truncated = d), %d paths (every ordering of the taus); n >= 2 rows, non-constant '
